@@ -143,10 +143,26 @@ func TestBoundedC05Stop(t *testing.T) {
 						fn := work(k)
 						mod.NewTask("t", func(ctx context.Context, _ *Task) error { return fn(ctx) }).StartASAP()
 					case "microtask":
-						mod.StartHighPriorityMicroTask("mt", work(k))
+						// the priority changes from scenario to scenario
+						switch cases % 3 {
+						case 0:
+							mod.StartHighPriorityMicroTask("mt", work(k))
+						case 1:
+							mod.StartMicroTask("mt", time.Second, work(k))
+						default:
+							mod.StartLowPriorityMicroTask("mt", time.Second, work(k))
+						}
 					case "signalled microtask":
 						// the caller runs the work itself between the signal and its done function
-						done := mod.SignalHighPriorityMicroTask()
+						var done func()
+						switch cases % 3 {
+						case 0:
+							done = mod.SignalLowPriorityMicroTask(time.Second)
+						case 1:
+							done = mod.SignalHighPriorityMicroTask()
+						default:
+							done = mod.SignalMicroTask(time.Second)
+						}
 						fn := work(k)
 						ctx := mod.Ctx
 						go func() {
@@ -296,7 +312,7 @@ func TestBoundedC05Stop(t *testing.T) {
 			}
 		}
 	}
-	fmt.Printf("BOUNDED name=C05/stop cases=%d distinct=%d bound=a module depending on a base module and running a subset of {worker (and one started while preparing), service worker, task, microtask, hook on an event of the base module, signalled microtask} (quick: none, each alone, two mixed subsets, all; thorough: 45 of the 64 subsets) x each piece returning 0 / 40ms after cancellation x the stop routine returning after / before the work; Shutdown from the test goroutine; then 4 tasks, an event, a worker and a microtask on the stopped module\n", cases, cases)
+	fmt.Printf("BOUNDED name=C05/stop cases=%d distinct=%d bound=a module depending on a base module and running a subset of {worker (and one started while preparing), service worker, task, microtask and signalled microtask of changing priority, hook on an event of the base module} (quick: none, each alone, two mixed subsets, all; thorough: 45 of the 64 subsets) x each piece returning 0 / 40ms after cancellation x the stop routine returning after / before the work; Shutdown from the test goroutine; then 4 tasks, an event, a worker and a microtask on the stopped module\n", cases, cases)
 	if fails > 0 {
 		t.Fatalf("%d checks of %d cases fail", fails, cases)
 	}
